@@ -3,6 +3,7 @@ package c03
 import (
 	"bytes"
 	"fmt"
+	"net/http"
 	"regexp"
 	"strconv"
 	"strings"
@@ -156,6 +157,9 @@ var subLabel = ev.Register("labels-ttl-age",
 		for _, l := range c.Fresh.Expires {
 			v.Headers = append(v.Headers, origin.HV{K: "Expires", V: l})
 		}
+		if c.Fresh.Date != "" {
+			v.Headers = append(v.Headers, origin.HV{K: "Date", V: c.Fresh.Date})
+		}
 		site.Set("/r", "r", v)
 		org := origin.New(site.Handler())
 		defer org.Close()
@@ -207,7 +211,12 @@ var subLabel = ev.Register("labels-ttl-age",
 			elapsed := time.Since(start)
 			if a := resp.Header.Get("Age"); a != "" {
 				n, err := strconv.Atoi(a)
-				if err != nil || n < 0 || time.Duration(n)*time.Second > time.Since(began)+time.Second {
+				// an answer generated before it was stored (old Date) is that much older than its time in the store
+				var older time.Duration
+				if d, derr := http.ParseTime(c.Fresh.Date); derr == nil && d.Before(began) {
+					older = began.Sub(d) + time.Second
+				}
+				if err != nil || n < 0 || time.Duration(n)*time.Second > time.Since(began)+older+time.Second {
 					return ev.Failf("label.age-inconsistent", "%s: Age %q on an entry stored %v ago", id, a, elapsed.Round(time.Millisecond))
 				}
 			} else {
